@@ -926,7 +926,14 @@ def _live_reference_only(M, c, D, attr, stmt):
                 v = n.value
                 if not isinstance(v, ast.Call):
                     return False
-                for x_ in ast.walk(v):
+                vs_ = [v]
+                if isinstance(v.func, ast.Attribute) and isinstance(v.func.value, ast.Name) and v.func.value.id == 'self' and c.lookup(v.func.attr) is not None:
+                    # built by a method of the class: what that method returns
+                    vs_ = [r_.value for r_ in ast.walk(c.lookup(v.func.attr).node) if isinstance(r_, ast.Return) and r_.value is not None]
+                    if not vs_ or not all(isinstance(r_, ast.Call) for r_ in vs_):
+                        return False
+                for v in vs_:
+                  for x_ in ast.walk(v):
                     if isinstance(x_, ast.Attribute) and x_.attr == attr and isinstance(x_.value, ast.Name) and x_.value.id == 'self':
                         # every occurrence must be a bare argument of the call
                         if not (x_ in v.args or any(k_.value is x_ for k_ in v.keywords)):
@@ -951,11 +958,19 @@ def stale_derived_values(ctx, rule, prefixes, what):
         der_ = derived_fields(M, c)
         ctor_side_ = {n_ for n_, m_ in c.methods.items() if n_ == '__init__' or M.ctor_only(m_)}
         recomputes = any(set(refr_) - ctor_side_ for _, (deps_, refr_, _e) in der_.items())        # some method other than the constructor (re)assigns a derived field
-        if not any(ok for fn, s, objtxt, attr, D, deps, ok in sw) and not recomputes:
-            n_checked += len(sw)
-            continue
+        # ... nor can staleness be inherited from the pinned tree when the derived value itself is new: a figure this tree starts to keep (under a name the pinned
+        # tree has no field for) must be kept current by this tree
+        try:
+            from .model import _baseline
+            base_fields = {f_ for fs_ in (_baseline().get('fields') or {}).values() for f_ in fs_}
+        except Exception:
+            base_fields = None
+        maintained = any(ok for fn, s, objtxt, attr, D, deps, ok in sw) or recomputes
         for fn, s, objtxt, attr, D, deps, ok in sw:
             n_checked += 1
+            new_figure = base_fields is not None and D not in base_fields and D.lstrip('_') not in base_fields
+            if not maintained and not new_figure:
+                continue
             if not ok and _live_reference_only(M, c, D, attr, s):
                 continue
             if not ok:
